@@ -28,7 +28,7 @@ def run(ck):
     if quick and i % 2:          # quick: every other case (all layouts x scales still covered)
       continue
     for opt in ("ds", "tf"):
-      jobs.append({"opt": opt, "case": c, "seed": ck.seed * 1000 + i, "quick": quick,
+      jobs.append({"opt": opt, "case": c, "seed": ck.seed * 1000 + i, "quick": quick, "eigh": bool((i // 2) % 2),
                    "graft": {"ds": ["SGD", "RMSPROP", "ADAGRAD"][i % 3], "tf": ["SGD", "RMSPROP"][i % 2]}[opt]})
   ck.sample({"case_from_TLC": cases[3], "meaning": "blocked target, per-block scales, companion"})
   res = core.run_workers("harness.workers.blocks_indep", jobs, work=ck.work)
